@@ -246,6 +246,7 @@ static void part_hist(const Args& a) {
 // purge: every sequence of <= n items over 4 kinds, committed one by one, x every removed-mask x with/without
 // callback x with/without an uncommitted tail x 3 configurations. Runs through the same step function.
 static std::vector<Op> PURGE_OPS;   // synthetic operations (RM with any index)
+static std::vector<Op> PURGE_UNRM_OPS;   // ... and UNRM: every second survivor is marked and un-marked again before the purge
 static const char PK[] = "abct";
 static const Op* pk_op(char c) {
     switch (c) { case 'a': return &OPS[op_index("n_u0")]; case 'b': return &OPS[op_index("n_t2")]; case 'c': return &OPS[op_index("c_t2")]; default: return &OPS[op_index("l_tags2")]; }
@@ -258,7 +259,10 @@ static std::vector<const Op*> pcase_ops(const PCase& p) {
     std::vector<const Op*> ops;
     for (char c : p.kinds) { ops.push_back(pk_op(c)); ops.push_back(&OPS[op_index("commit")]); }
     // in internal mode earlier items may have been retired into nested buffers: indices are relative to the current block, excess ones are no-ops
-    for (size_t i = 0; i < p.kinds.size(); ++i) if (p.mask >> i & 1) ops.push_back(&PURGE_OPS[i]);
+    for (size_t i = 0; i < p.kinds.size(); ++i) {
+        if (p.mask >> i & 1) ops.push_back(&PURGE_OPS[i]);
+        else if (i % 2 == 1) { ops.push_back(&PURGE_OPS[i]); ops.push_back(&PURGE_UNRM_OPS[i]); }
+    }
     if (p.tail) ops.push_back(&OPS[op_index("n_u6")]);
     ops.push_back(&OPS[op_index(p.cb ? "purge_cb" : "purge")]);
     return ops;
@@ -392,6 +396,7 @@ int main(int argc, char** argv) {
     for (auto& m : SRC_ITEMS) { SRC_OFF.push_back(src.committed()); build_manual(src, m, 0); src.commit(); }
     make_alphabet();
     for (int i = 0; i < 8; ++i) { Op o; o.name = "rm#" + std::to_string(i); o.kind = "set_removed"; o.code = RM; o.arg = i; PURGE_OPS.push_back(o); }
+    for (int i = 0; i < 8; ++i) { Op o; o.name = "unrm#" + std::to_string(i); o.kind = "set_removed(false)"; o.code = UNRM; o.arg = i; PURGE_UNRM_OPS.push_back(o); }
     {
         Snap s; std::string path, detail;
         std::vector<MI> want; for (auto& m : SRC_ITEMS) want.push_back(MI{&m, false});
